@@ -14,9 +14,10 @@ import (
 
 func docOpts(c *core.Ctx) *docs.Opts {
 	return &docs.Opts{
-		ByteSafe:      func() bool { return c.Avoid("strings.multibyte_where_bytes_differ") },
-		NoNullObjects: func() bool { return c.Avoid("nulls.nullable_object_with_properties") },
-		Excluded:      c.ExcludedMap(),
+		ByteSafe:         func() bool { return c.Avoid("strings.multibyte_where_bytes_differ") },
+		NoNullObjects:    func() bool { return c.Avoid("nulls.nullable_object_with_properties") },
+		SmallAddlNumbers: func() bool { return c.Avoid("addprops.int_beyond_2pow53") },
+		Excluded:         c.ExcludedMap(),
 	}
 }
 
